@@ -220,6 +220,21 @@ class Module:
         return f"<module {self.name}>"
 
 
+def _strip_inert(tree: ast.Module) -> ast.Module:
+    """`pass` statements and bare constant expression statements (docstrings, `...`) compute nothing: they are dropped from
+    every block that has another statement, so that no rule depends on their presence or position."""
+    for node in ast.walk(tree):
+        for fld in ("body", "orelse", "finalbody"):
+            b = getattr(node, fld, None)
+            if isinstance(b, list) and b and isinstance(b[0], ast.stmt):
+                nb = [st for st in b if not (isinstance(st, ast.Pass) or (isinstance(st, ast.Expr) and isinstance(st.value, ast.Constant)))]
+                if nb:
+                    setattr(node, fld, nb)
+                elif len(b) > 1:
+                    setattr(node, fld, b[:1])
+    return tree
+
+
 class Program:
     def __init__(self, repo: str, overrides: Optional[Dict[str, str]] = None):
         self.repo = os.path.abspath(repo)
@@ -255,7 +270,7 @@ class Program:
                     src = self.overrides[rel] if rel in self.overrides else open(path, encoding="utf-8").read()
                     with warnings.catch_warnings():
                         warnings.simplefilter('ignore')
-                        tree = ast.parse(src, filename=path)
+                        tree = _strip_inert(ast.parse(src, filename=path))
                 except (SyntaxError, UnicodeDecodeError, OSError) as e:
                     raise AnalysisError(f"cannot parse {rel}: {e}")
                 h.update(rel.encode())
